@@ -3,7 +3,7 @@ From Skv Require Import PyStrFacts Node GetTree Unsafe UnsafeFacts AuditFacts No
 
 Definition resolves_own (k : kind) : bool :=
   match k with
-  | KDict | KDefaultDict | KList | KSet | KTuple | KCtorReduce | KRandomState | KObject | KOperatorFunc
+  | KDict | KDefaultDict | KList | KSet | KTuple | KBytes | KBytearray | KCtorReduce | KRandomState | KObject | KOperatorFunc
   | KFunction | KType | KNdArray | KRandomGenerator | KRandomGeneratorV1 | KRandomGeneratorV0 => true
   | _ => false
   end.
